@@ -19,7 +19,7 @@ use crate::util::hash_str;
 
 pub struct C06;
 
-pub const TYPES: [(&str, &str); 19] = [
+pub const TYPES: [(&str, &str); 24] = [
     ("number", "5"),
     ("string", "\"s\""),
     ("boolean", "true"),
@@ -41,6 +41,13 @@ pub const TYPES: [(&str, &str); 19] = [
     ("string:multi-byte", "\"\u{e9}\u{4e16}\u{1f30e}\""),
     ("array:empty", "[]"),
     ("array:nested", "[[1], [\"e\", [null]]]"),
+    // small whole numbers: as an index they sit at, just below and just above the length of the
+    // short arrays the sinks use; 2^32 and 2^53 are the edges of integer conversions
+    ("number:1", "1"),
+    ("number:2", "2"),
+    ("number:3", "3"),
+    ("number:2^32", "4294967296"),
+    ("number:2^53", "9007199254740992"),
 ];
 
 /// A route: prelude statements and the expression through which the value is visible.
@@ -419,7 +426,7 @@ impl Check for C06 {
              conditions, index base/value, index-assignment base/index/value, receiver and arguments of every \
              string/array/number/process method, every global built-in, interpolation, user call) x {} runtime \
              values (number, string, boolean, null, array, process_command, process_result, and further numbers - 1e35, \
-             -1e32, 1e-35, 2.5, -1, 0, NaN, a 320-digit literal -, empty and multi-byte strings, empty and nested arrays) x {} routes (parameter, \
+             -1e32, 1e-35, 2.5, -1, 0, 1, 2, 3, 2^32, 2^53, NaN, a 320-digit literal -, empty and multi-byte strings, empty and nested arrays) x {} routes (parameter, \
              array element, pop() result, function with mixed return types, nested element, dynamically typed \
              variable, captured variable reassigned with another type, plain reassignment with another type, \
              same-block redeclaration seen by an earlier-defined function), plus {} special shapes (member access \
